@@ -45,6 +45,8 @@ type rawActor struct {
 	eof        bool
 	done       chan struct{}
 	stallUntil time.Duration // the actor does not read before this virtual time (a client that stops reading for a while)
+	manual     bool          // the reader takes one token per frame
+	tokens     chan struct{}
 }
 
 func (a *rawActor) readFull(p []byte) bool {
@@ -65,6 +67,9 @@ func (a *rawActor) readFull(p []byte) bool {
 func (a *rawActor) readLoop() {
 	defer close(a.done)
 	for {
+		if a.manual {
+			<-a.tokens
+		}
 		var h [4]byte
 		if !a.readFull(h[:]) {
 			a.eof = true
